@@ -21,8 +21,9 @@ import (
 )
 
 type SrvCfg struct {
-	CtxErr    bool                `json:"ctxErr,omitempty"` // callback errors wrap a context error (a backend call of the application that ran out of time), although the server's own context is alive
-	Transport string              `json:"transport"`        // tcp (no TLS config) | tcp-tls (TLS config present) | inproc
+	CutInAuth bool                `json:"cutInAuth,omitempty"` // the peer's connection is reset while the authentication callback runs (the envelope with the credentials has been read; the reply cannot be written)
+	CtxErr    bool                `json:"ctxErr,omitempty"`    // callback errors wrap a context error (a backend call of the application that ran out of time), although the server's own context is alive
+	Transport string              `json:"transport"`           // tcp (no TLS config) | tcp-tls (TLS config present) | inproc
 	Comp      []string            `json:"comp"`
 	Enc       []string            `json:"enc"`
 	Schemes   []string            `json:"schemes"`
@@ -160,6 +161,7 @@ type cbLog struct {
 	mu     sync.Mutex
 	Log    []CBEntry
 	rounds map[string]int
+	onAuth func() // runs inside the authentication callback (a fault injected at that moment)
 }
 
 func (l *cbLog) add(e CBEntry) {
@@ -180,6 +182,9 @@ func (l *cbLog) callbacks(cfg *SrvCfg, transportOf func() lime.Transport) (
 		l.rounds["r"]++
 		l.mu.Unlock()
 		out := authOutcome(cfg, scheme, cred, round)
+		if l.onAuth != nil {
+			l.onAuth()
+		}
 		enc := ""
 		if t := transportOf(); t != nil {
 			enc = string(t.Encryption())
@@ -521,6 +526,10 @@ func RunServerScript(c *SrvCase) *SrvObs {
 				return
 			}
 		}
+	}
+	if c.Cfg.CutInAuth && !inproc && peer != nil {
+		var once sync.Once
+		log.onAuth = func() { once.Do(func() { peer.Raw.Cut() }) }
 	}
 	for i := range c.Script {
 		sym := &c.Script[i]
